@@ -68,15 +68,15 @@ type Extractor struct {
 // This ensures immutability - each chain method returns a new instance.
 func (e *Extractor) clone() *Extractor {
 	newExt := &Extractor{
-		filename:     e.filename,
-		format:       e.format,
-		reader:       e.reader,
-		docxReader:   e.docxReader,
-		odtReader:    e.odtReader,
-		xlsxReader:   e.xlsxReader,
-		pptxReader:   e.pptxReader,
-		htmlReader:   e.htmlReader,
-		epubReader:   e.epubReader,
+		filename:   e.filename,
+		format:     e.format,
+		reader:     e.reader,
+		docxReader: e.docxReader,
+		odtReader:  e.odtReader,
+		xlsxReader: e.xlsxReader,
+		pptxReader: e.pptxReader,
+		htmlReader: e.htmlReader,
+		epubReader: e.epubReader,
 		// A derived extractor borrows a reader its parent has already opened: the parent stays
 		// the owner, so a terminal operation on the derived extractor neither closes the parent's
 		// handle nor makes the parent's own Close fail with "file already closed".
